@@ -48,7 +48,7 @@ def main():
         for d in sorted(glob.glob(os.path.join(HERE, "seeded", "*", ""))):
             d = d.rstrip("/")
             meta = json.load(open(os.path.join(d, "meta.json")))
-            if args and meta["property"] not in args:
+            if args and meta["property"] not in args and os.path.basename(d) not in args:
                 continue
             jobs.append((meta["property"], os.path.join(d, "patch.diff")))
     else:
